@@ -348,12 +348,22 @@ bool Instance::eval(const size_t argc, char* const* argv) {
         InterpreterEnv* e; CScript::const_iterator prev;
         ~RestoreCodeHash() { if (e->pbegincodehash != prev) e->pbegincodehash = e->pc; }
     } restore_codehash{env, prev_begincodehash};
+    // a failing operation takes nothing with it, as when it fails as the next operation of the script (the operations before it stay done)
+    struct Undo {
+        InterpreterEnv* e; bool armed;
+        Undo(InterpreterEnv* e_) : e(e_), armed(false), nOpCount(0), pbegincodehash(e_->pbegincodehash), opcode_pos(0) {}
+        stack_type stack, altstack; int nOpCount; ConditionStack vfExec; CScript::const_iterator pbegincodehash; ScriptExecutionData execdata; uint32_t opcode_pos;
+        void save() { stack = e->stack; altstack = e->altstack; nOpCount = e->nOpCount; vfExec = e->vfExec; pbegincodehash = e->pbegincodehash; execdata = e->execdata; opcode_pos = e->opcode_pos; armed = true; }
+        ~Undo() { if (armed) { e->stack = stack; e->altstack = altstack; e->nOpCount = nOpCount; e->vfExec = vfExec; e->pbegincodehash = pbegincodehash; e->execdata = execdata; e->opcode_pos = opcode_pos; } }
+    } undo(env);
     try {
         while (it != script.end()) {
+            undo.save();
             if (!StepScript(*env, it, &script)) {
                 fprintf(stderr, "Error: %s\n", ScriptErrorString(*env->serror).c_str());
                 return false;
             }
+            undo.armed = false;
             // a signature check later in this same list must not see an iterator into the temporary script either
             if (env->pbegincodehash != restore_codehash.prev) restore_codehash.prev = env->pbegincodehash = env->pc;
         }
